@@ -706,7 +706,7 @@ pub fn c08(subjects: &[Box<dyn Subject>], docs: &[Doc], corruptions: &[(usize, C
 fn c08_exact(c: &Corruption, ex: &Execution) -> Option<(&'static str, String)> {
     match &ex.end {
         End::Syntax { line, column, .. } => {
-            if *line != c.line || *column < c.col_first || *column > c.col_last + 1 {
+            if *line != c.line || *column < c.col_first || *column > c.col_last {
                 Some(("wrong-position", format!("error reported at {line}:{column}, the corrupted token is on line {} columns {}..={}", c.line, c.col_first, c.col_last)))
             } else {
                 None
@@ -1183,7 +1183,13 @@ pub struct StreamCase {
 /// Returns (peak heap bytes, items, clean end?)
 pub fn stream_once(subject: &dyn Subject, case: &StreamCase, total_bytes: u64, chunk: usize, grain: usize) -> (usize, u64, End) {
     let repeats = total_bytes / case.period.len().max(1) as u64;
-    let src = GenSource { prefix: case.prefix.clone(), period: case.period.clone(), repeats, suffix: case.suffix.clone(), grain, pos: 0 };
+    // a run of eight '#' in the PREFIX stands for the number of repetitions (e.g. a header that
+    // announces exactly the number of clauses that follow)
+    let mut prefix = case.prefix.clone();
+    if let Some(at) = prefix.windows(8).position(|w| w == b"########") {
+        prefix.splice(at..at + 8, format!("{:08}", repeats).into_bytes());
+    }
+    let src = GenSource { prefix, period: case.period.clone(), repeats, suffix: case.suffix.clone(), grain, pos: 0 };
     let mut items = 0u64;
     // an allocation failure aborts the process: the abort guard turns that into a verdict for this case
     let describe = || {
